@@ -42,6 +42,30 @@ tie    : T  translate/t_eig.py regenerates coq/gen/EigSelect.v (which eigenpairs
             exactly representable) the centred accumulation of the current code (fix F49) is still EXACT == model,
             whereas the expanded form E[x x^T] - mean mean^T (equal over every exact field: theorem
             C06_cov_centred_and_expanded) forms x_a x_b ~ 2^80 and loses everything.
+         Wave 4 — WIDE DYNAMIC RANGE inside one problem, and a verdict at the accuracy binary64 delivers.
+            * Every PCA(dense) call is judged at eta = D 8 (N + 4) u S + 32 D^2 u max|C| + D delta^2 (natural units:
+              max|C| in [1, 4); u = 2^-53; S = max_ab 1/N sum_i |x_ia - m_a| |x_ib - m_b|; delta = (N + 1) u max|x| the
+              rounding error of the computed mean): the forward error of accumulating the centred outer products plus
+              the backward error of a stable symmetric eigensolver (tridiagonalisation + implicit QR) with a generous
+              polynomial 32 D^2.  Waves 1-3 used a flat 1e-9, i.e. 1e7 unit roundoffs: blind to a solver with absolute
+              accuracy 1e-9 |C|, which mixes principal directions whose variances are both below 1e-9 of the largest.
+              The residual of the shipped code as a fraction of eta is measured on every run (evidence:
+              worst_dense_residual_as_fraction_of_eta; 0.02 .. 0.04 on HEAD: a margin of 25 .. 50).
+            * RELATIVE per-eigenpair criterion (D <= 6): the kept variance of column c, rho_c = p_c^T C p_c / p_c^T p_c
+              with C the EXACT rational covariance of the data, against the eigenvalue lambda certified by exact inertia
+              counts (signs of the leading principal minors of C - x I, fraction-free elimination over the integers,
+              bisection): |rho_c - lambda| <= sum_j min(|lambda_j - lambda|, eta^2 / |lambda_j - lambda|).  That is what
+              follows from a residual |C p - lambda p| <= eta (p = sum a_j v_j: a_j (lambda_j - lambda) = v_j^T (C p -
+              lambda p), rho - lambda = sum_j (lambda_j - lambda) a_j^2): relative accuracy eta^2 / (gap lambda) where
+              the spectrum is separated by much more than eta, absolute eta where it is not — no more is demanded than a
+              covariance-based PCA in binary64 can give (variances below ~1e-13 of the largest are not resolved and are
+              not required to be).  With orthonormal columns, rho_c = lambda_(c) for every column forces the columns to BE
+              the leading eigenvectors (sum = Ky Fan maximum, and a symmetric matrix whose diagonal equals its spectrum is
+              diagonal): kept variance, leak of a dropped direction and uncorrelatedness are one test.
+            * generators: principal standard deviations 1 > s_1 > ... with one WIDE ratio (1e-4, 3e-5, 1e-5, 1e-6, 1e-7)
+              after the g-th direction for every g, mild ratios (1/3, 1/10) elsewhere (thorough: a second wide ratio), at
+              EVERY D in 2..5, target dimension d = g (boundary at the gap) and d = g + 1 (boundary INSIDE the block of
+              tiny variances), random orthonormal frame or coordinate axes, N in 8..33, arbitrary doubles, + scaled copies.
 search : when an obligation or the correspondence breaks, a larger budget of strongly correlated data sets
          is run through the same decision procedures.
 """
@@ -65,7 +89,13 @@ TRUSTED = [
     "front-end reads (not a proof about the C++ text)",
     "eigen-solver oracle: Eigen::SelfAdjointEigenSolver is assumed to return an orthonormal eigenbasis of the "
     "LOWER triangle, ascending (DESIGN 1.3); validated on every probe and on every public-API call by the "
-    "residual / orthonormality decision procedure (tolerance 1e-9 relative, 1e-6 for the randomized solver)",
+    "residual / orthonormality decision procedure (dense: tolerance eta = D 8 (N + 4) u S + 32 D^2 u max|C| + D delta^2 in "
+    "natural units, a few hundred to a few thousand unit roundoffs; 1e-6 relative for the randomized solver); the "
+    "polynomial 32 D^2 for Eigen's symmetric QR and the accumulation bound are standard numerical analysis, not "
+    "formalised; the shipped code uses 2 .. 4 percent of eta (measured on every run)",
+    "relative per-eigenpair criterion: exact rational arithmetic in Python (Fractions / integers): inertia counts by "
+    "fraction-free elimination, bisection, Rayleigh quotients; the perturbation identity behind the tolerance "
+    "sum_j min(gap_j, eta^2 / gap_j) is elementary linear algebra, stated in the module docstring, not formalised in Coq",
     "reference eigenvalues (Eigen, through harness/c06.cpp EIG, on the model's exact covariance rounded to "
     "binary64) decide WHICH eigenvalues are the d largest",
     "translate/t_eig.py (selection expressions of the solver front-ends, owned by C05) -> coq/gen/EigSelect.v; "
